@@ -7,6 +7,20 @@ HERE = os.path.dirname(os.path.dirname(os.path.abspath(__file__)))
 
 # id -> (category, technique, text, note, design_ref)
 CLAIMED = {
+    "C11": (
+        "exploration",
+        "exhaustive enumeration of circuits over a letter alphabet placed on contiguous, descending, sparse and >= 9-mode index sets, compiled by the real compilers, judged by reference affine maps (hybrid: differential Fock run)",
+        "Every circuit of length <= 2 (thorough: 3 on the contiguous set) over 21/13/11 letters (Gaussian gates incl. daggers, 1-3-mode Interferometers and GaussianTransforms, LossChannel/PassiveChannel) on every ordered tuple of the index sets {0,1,2}, {1,9}, {8,0}, {3,7,9}, {0,10,2}, {16,8,1} in registers of 3-17 modes is compiled with gaussian_unitary, passive and gaussian_merge; the compiled circuit read in its own mode order must have the same reference map (X,Y,d) on the full register and touch only used modes. gaussian_merge on hybrid circuits (Kgate, Vgate, CKgate between Gaussian gates, length <= 3): non-Gaussian commands preserved and source vs compiled Fock states agree within the truncation tolerance.",
+        "Finite parameter lattice (one value per letter); hybrid oracle uses the Fock simulator (validated by C01) at cutoff 9 with tolerance 1e-6 + 4 sqrt(lost norm); measurements and Ket preparations inside gaussian_merge circuits not enumerated.",
+        "DESIGN.md section 4 (C11)",
+    ),
+    "C18": (
+        "exploration",
+        "exhaustive enumeration of all ordered pairs of all programs up to a length bound through the real comparison functions, soundness judged by reference affine maps",
+        "All programs of length <= 2 (thorough 3) over 14 letters on 2 modes and ALL ordered pairs of them (4.5e4 quick, 8.7e6 thorough) go through Program.__eq__ and Program.equivalence (with and without parameter comparison): reported equal/equivalent implies equal reference maps; reflexivity; symmetry; swapping two adjacent commands on disjoint modes never changes the verdict.",
+        "2-mode register, one parameter value per letter family plus one differing value; 'same computation' = same affine map on the measurement-extended register.",
+        "DESIGN.md section 4 (C18)",
+    ),
     "C13": (
         "model_checking",
         "exhaustive enumeration of a TDM program family run through the real unroll/space_unroll/engine, judged against an explicit-loop reference; choice-controlled sample routing; BFS over unroll/roll/run call histories",
